@@ -62,7 +62,7 @@ Clauses(b, s0, e) ==
     \cup (IF ~e.closed THEN {"C05_Closed"} ELSE {})
     \cup (IF ~e.meaning THEN {"C05_MeaningPreserved"} ELSE {})
     \cup (IF HasExt(b) /\ ~AllTrue(e.numeraire, 1) THEN {"C07_NumeraireValueZero"} ELSE {})
-    \cup (IF HasExt(b) /\ ~AllTrue(e.numflat, 1) THEN {"C07_PairedLeavesNumeraireFlat"} ELSE {})
+    \cup (IF HasExt(b) /\ ~b.gold /\ ~AllTrue(e.numflat, 1) THEN {"C07_PairedLeavesNumeraireFlat"} ELSE {})
     \cup (IF \E i \in 1..Len(e.credits) : ~e.credits[i].ok THEN {"C07_Credit"} ELSE {})
     \cup (IF LedgerDrift(b, s0, e) THEN {"drift_ledger"} ELSE {})
     \cup (IF VarsDrift(b, s0, e) THEN {"drift_vartable"} ELSE {})
